@@ -143,8 +143,23 @@ def run_one(ctx, cfg_key, scopes_supported, used, require_nonce, query, form, ap
     uri = "https://as.example/authorize" + ("?" + url_encode(query) if query else "")
     req = S.HReq("POST" if form else "GET", uri, dict(form) if form else None, {})
     registered_all = [u for c in CLIENTS for u in c["redirect_uris"]]
+    # two ways an integrator reaches the endpoint: directly, or -- as the documented consent page does -- by first asking for the
+    # consent grant with the logged-in user on ONE request object that is then used for the decision as well
+    names = [k for k, _ in list(query) + list(form)]
+    # (the consent path refuses a repeated parameter first, with invalid_request: requests that repeat one go the direct way)
+    via_consent = len(names) == len(set(names)) and (len(json.dumps(query)) + len(json.dumps(form)) + int(approve)) % 2 == 1
     try:
-        resp = srv.create_authorization_response(req, grant_user=S.User("alice") if approve else None)
+        if via_consent:
+            from authlib.oauth2 import OAuth2Request
+            from authlib.oauth2.base import OAuth2Error as _E
+            oreq = OAuth2Request(req.method, req.uri, req.form, req.headers)
+            try:
+                srv.get_consent_grant(oreq, end_user=S.User("alice"))
+                resp = srv.create_authorization_response(oreq, grant_user=S.User("alice") if approve else None)
+            except _E as error:
+                resp = srv.handle_error_response(oreq, error)
+        else:
+            resp = srv.create_authorization_response(req, grant_user=S.User("alice") if approve else None)
         got = outcome(resp, registered_all)
     except Exception as e:  # noqa
         got = ["escapes", type(e).__name__, str(e)[:60]]
@@ -154,7 +169,8 @@ def run_one(ctx, cfg_key, scopes_supported, used, require_nonce, query, form, ap
                                                   "used_nonces": [[a.encode(), b.encode()] for a, b in used], "require_nonce": require_nonce},
                                        "query": [[k.encode(), v.encode()] for k, v in query],
                                        "form": [[k.encode(), v.encode()] for k, v in form], "approve": approve})
-    case = {"query": query, "form": form, "approve": approve, "scopes_supported": scopes_supported, "used_nonces": used, "require_nonce": require_nonce}
+    case = {"query": query, "form": form, "approve": approve, "scopes_supported": scopes_supported, "used_nonces": used, "require_nonce": require_nonce,
+            "via_consent_grant": via_consent}
     ctx.case(case, (json.dumps(query), json.dumps(form), approve, cfg_key), "authorize:" + (":".join(map(str, got[:1] + ([got[2]] if got[0] == "local" else [])))))
     if got[0] != "escapes":
         ctx.compare("authorize_respond", case, got, mod)
